@@ -135,4 +135,107 @@ def expected (s : Snd) : Sampled :=
 def expectedWav (s : Snd) : WavParams × Bytes :=
   (⟨s.header.channels, s.header.bits / 8, s.rateInt⟩, (expected s).samples)
 
+/-! ### resources with several sound commands
+
+  Format 1 allows any sequence of commands. `snd_to_sampled` runs every bufferCmd/soundCmd in turn on ONE `SampledSound`
+  and appends the frames. A `Multi` is such a resource: a command table whose sound commands point at consecutive
+  (header, sample area, gap) parts laid out after the table. -/
+
+/-- one sampled sound: exactly the sound-command part of a `Snd` -/
+structure Part where
+  soundCmd : Bool
+  param1 : Bytes
+  rateInt : Nat
+  rateFrac : Bytes
+  loops : Bytes
+  header : Header
+  samples : Bytes
+  /-- bytes between this sample area and the next part -/
+  gap : Bytes
+  deriving Repr, DecidableEq, Inhabited
+
+/-- the single-sound resource with the same header fields (only used to share `encSoundHeader` / `Header.Valid`) -/
+def Part.asSnd (p : Part) : Snd :=
+  ⟨.fmt2 [0, 0], [], p.soundCmd, p.param1, p.rateInt, p.rateFrac, p.loops, p.header, p.samples, []⟩
+
+def Part.Valid (p : Part) : Prop :=
+  p.param1.length = 2 ∧ p.rateInt < 65536 ∧ p.rateFrac.length = 2 ∧ p.loops.length = 8 ∧ p.header.Valid p.samples.length
+
+instance (p : Part) : Decidable p.Valid := by unfold Part.Valid; exact inferInstance
+
+/-- header + sample area + gap -/
+def Part.body (p : Part) : Bytes := encSoundHeader p.asSnd ++ p.samples ++ p.gap
+
+/-- what this part contributes to the decoded stream -/
+def Part.decoded (p : Part) : Bytes := if p.header.bits = 16 then swapPairs p.samples else p.samples
+
+inductive Item where
+  /-- a null command (6 parameter bytes) -/
+  | null (params : Bytes)
+  /-- a bufferCmd / soundCmd with its part -/
+  | sound (p : Part)
+  deriving Repr, DecidableEq, Inhabited
+
+structure Multi where
+  format : Format
+  items : List Item
+  trailing : Bytes
+  deriving Repr, DecidableEq, Inhabited
+
+def partsOf : List Item → List Part
+  | [] => []
+  | .null _ :: r => partsOf r
+  | .sound p :: r => p :: partsOf r
+
+/-- the command records: a sound command carries the offset of its part; parts are laid out consecutively from `off` -/
+inductive CmdRec where
+  | null (params : Bytes)
+  | sound (soundCmd : Bool) (param1 : Bytes) (off : Nat)
+  deriving Repr, DecidableEq, Inhabited
+
+def recsOf (off : Nat) : List Item → List CmdRec
+  | [] => []
+  | .null ps :: r => .null ps :: recsOf off r
+  | .sound p :: r => .sound p.soundCmd p.param1 off :: recsOf (off + p.body.length) r
+
+def encRec : CmdRec → Bytes
+  | .null ps => be16 0 ++ ps
+  | .sound sc p1 off => be16 (cmdNumber sc) ++ p1 ++ be32 off
+
+def bodyOf : List Item → Bytes
+  | [] => []
+  | .null _ :: r => bodyOf r
+  | .sound p :: r => p.body ++ bodyOf r
+
+/-- offset of the first part = end of the command table -/
+def Multi.tableEnd (m : Multi) : Nat := (encPrefix m.format).length + 2 + 8 * m.items.length
+
+def encodeMulti (m : Multi) : Bytes :=
+  encPrefix m.format ++ be16 m.items.length ++ ((recsOf m.tableEnd m.items).map encRec).flatten ++ bodyOf m.items ++ m.trailing
+
+def Item.Valid : Item → Prop
+  | .null ps => ps.length = 6
+  | .sound p => p.Valid
+
+instance (i : Item) : Decidable i.Valid := by cases i <;> unfold Item.Valid <;> exact inferInstance
+
+def Multi.Valid (m : Multi) : Prop :=
+  m.format.Valid ∧ m.items.length < 32768 ∧ (∀ i ∈ m.items, i.Valid) ∧ (encodeMulti m).length < 2 ^ 31
+
+instance (m : Multi) : Decidable m.Valid := by unfold Multi.Valid; exact inferInstance
+
+/-- all sounds of the resource have one sample format (a standard header means mono 8-bit) -/
+def Homogeneous (m : Multi) (c b : Nat) : Prop := ∀ p ∈ partsOf m.items, p.header.channels = c ∧ p.header.bits = b
+
+instance (m : Multi) (c b : Nat) : Decidable (Homogeneous m c b) := by unfold Homogeneous; exact inferInstance
+
+/-- rate reported after the last sound command (`dflt` when there is none) -/
+def lastRate (dflt : Int) : List Part → Int
+  | [] => dflt
+  | p :: r => lastRate (p.rateInt : Int) r
+
+/-- what decoding a homogeneous resource has to give: the common format, the concatenation of the parts' sample areas -/
+def expectedMulti (m : Multi) (c b : Nat) : Sampled :=
+  ⟨c, b, lastRate 0 (partsOf m.items), ((partsOf m.items).map Part.decoded).flatten⟩
+
 end Drx.SndSpec
